@@ -45,6 +45,17 @@ theorem fallible_push_eq_decode (alloc : List Bool) (s : List UInt8)
   rw [fallible_push_eq_reference alloc s h, decode_eq]
   rfl
 
+/-- a bounded buffer of capacity at least the stream length whose pushes may additionally fail
+    spuriously: as long as no `OutOfMemory` was answered, every `push_byte` answer is the one of
+    the never-failing unbounded model (`buffer_independent` composed with the refinement) -/
+theorem fallible_cap_push_eq (alloc : List Bool) (s : List UInt8) (N : Nat) (hN : s.length ≤ N)
+    (h : Out.err .oom ∉ (DecF.pushAll (DecF.freshCap (some N) alloc) s).2) :
+    (DecF.pushAll (DecF.freshCap (some N) alloc) s).2 = (Dec.pushAll (Dec.fresh none) s).2 := by
+  have e := (C05.pushAll_eq_of_no_oom (DecF.freshCap (some N) alloc) s h).1
+  have hf : (DecF.freshCap (some N) alloc).d = Dec.fresh (some N) := rfl
+  rw [hf] at e
+  rw [e, buffer_independent s N hN]
+
 /-- non-vacuity: the hypothesis holds for an oracle that does contain a failure, as long as the
     failing answer is not consumed by this stream (one allocation, second answer `false`) -/
 example : Out.err .oom ∉
